@@ -1476,6 +1476,21 @@ func (ev *evaluator) genericAxiom(ax *axiomDecl) *T {
 			ev.fail("reads target must be a pointer or a slice")
 		}
 	}
+	// explicit patterns: forall ... :: triggers(t1, ...) ==> body
+	if bin, ok := q.Body.(*EBin); ok && bin.Op == "==>" {
+		if call, ok := bin.X.(*ECall); ok {
+			if id, ok := call.Fun.(*EIdent); ok && id.Name == "triggers" {
+				var pats []string
+				for _, a := range call.Args {
+					pats = append(pats, n.term(n.eval(a)).String())
+				}
+				body := n.evalBool(bin.Y)
+				body = mkImp(mkAnd(append(preWF, wf...)...), body)
+				ann := &T{op: "!", args: []*T{body, atom(":pattern ("+strings.Join(pats, " ")+")", "Attr")}, sort: "Bool"}
+				return app("forall ("+strings.Join(decl, " ")+")", "Bool", ann)
+			}
+		}
+	}
 	body := n.evalBool(q.Body)
 	body = mkImp(mkAnd(append(preWF, wf...)...), body)
 	var bound []string
